@@ -34,7 +34,13 @@ LEVEL_TEXT = (
     "constructors' amounts, the fee and the totals of the assigned UTxOs (C01_source_to_value, input_lowers, "
     "lower_int_inert; the example program satisfies every hypothesis); (8) an index selects the element at exactly "
     "that position or is an error - never the element a multiple of 2^64 away (C01_list_index_exact, "
-    "C01_struct_index_exact, C01_index_out_of_range; the defect repaired by 874eff9). Per generated program (two layouts of the same tree) the real parse, analyze, lower, "
+    "C01_struct_index_exact, C01_index_out_of_range; the defect repaired by 874eff9); (9) the data side: for every data expression "
+    "built from integer expressions, hex literals, booleans, unit, record / variant constructors with their fields written in any order "
+    "(no spread) and list literals, nested to any depth, [[.]] yields a value whose Plutus Data is den - constructor index = position "
+    "of the case, fields in the order the type declares them - and lowering, applying the arguments, reducing and converting "
+    "(compile_data_expr for a datum, try_as_data for a redeemer or a list element) yields den too, at every sufficient fuel "
+    "(C01_datum_fragment, C01_datum_exact, C01_redeemer_exact, C01_field_order_immaterial; R { extra: q + 1, counter: 7, label: 0xab } "
+    "meets every hypothesis and denotes Constr 0 [7, 0xab, 42]). Per generated program (two layouts of the same tree) the real parse, analyze, lower, "
     "resolve_tx (apply, reduce, input selection, compile) is run; the lowered IR must equal the model's, and the "
     "transaction bytes, decoded by the Lean Conway reader, must hold exactly the inputs, outputs (address, lovelace, "
     "native assets, inline datum, in source order), mint, validity interval, signers, reference inputs, metadata "
@@ -43,13 +49,13 @@ LEVEL_TEXT = (
 )
 LEVEL_NOTE = (
     "Partial: the end-to-end equation (lower, apply, reduce = denotation) is proved for the integer, the lovelace and "
-    "the declared-asset fragments, and for amounts over those, fees and input names (C01_source_to_value); AnyAsset with non-literal policy or name and property access are per case; records with spread, property access, inputs, selection and the Cardano compiler are compared "
+    "the declared-asset fragments, and for amounts over those, fees and input names (C01_source_to_value); and for data expressions without spread (C01_datum_fragment); AnyAsset with non-literal policy or name and property access are per case; records with spread, property access, maps, inputs as data, selection and the Cardano compiler are compared "
     "with [[.]] per case (compile exactness on constant IR is C02's theorems). min_utxo, "
     "collateral, policies with scripts and chain-specific directives are not generated yet; names are unique, so "
     "shadowing between scopes is not exercised."
 )
 PROP = "C01"
-TARGETS = ["Tx3Proofs.C01", "Tx3Proofs.C01Assets", "Tx3Proofs.C01Lovelace", "Tx3Proofs.C01MultiAsset", "Tx3Proofs.C01Template", "Tx3Proofs.C01Spec", "Tx3Proofs.C01Change", "Tx3Proofs.C01Index"]
+TARGETS = ["Tx3Proofs.C01", "Tx3Proofs.C01Assets", "Tx3Proofs.C01Lovelace", "Tx3Proofs.C01MultiAsset", "Tx3Proofs.C01Template", "Tx3Proofs.C01Spec", "Tx3Proofs.C01Change", "Tx3Proofs.C01Index", "Tx3Proofs.C01Datum"]
 THEOREMS = ["Tx3.Lang.eval_int", "Tx3.Lang.lower_int", "Tx3.Lang.C01_int_fragment", "Tx3.Lang.C01_sub_chain",
             "Tx3.Lang.C01_sub_chain_distinct",
             "Tx3.assetsOfChildren_amt", "Tx3.reread_canonical", "Tx3.C01_assets_add", "Tx3.C01_assets_neg",
@@ -60,7 +66,9 @@ THEOREMS = ["Tx3.Lang.eval_int", "Tx3.Lang.lower_int", "Tx3.Lang.C01_int_fragmen
             "Tx3.Lang.eval_lovelace", "Tx3.Lang.C01_spec_meets_pipeline",
             "Tx3.Lang.lower_int_inert", "Tx3.Lang.denotes_add", "Tx3.Lang.denotes_sub", "Tx3.Lang.lowerInput_shape",
             "Tx3.Lang.input_lowers", "Tx3.Lang.C01_source_to_value", "Tx3.Lang.full_pipeline_order",
-            "Tx3.nth?_spec", "Tx3.C01_list_index_exact", "Tx3.C01_struct_index_exact", "Tx3.C01_index_out_of_range"]
+            "Tx3.nth?_spec", "Tx3.C01_list_index_exact", "Tx3.C01_struct_index_exact", "Tx3.C01_index_out_of_range",
+            "Tx3.Lang.good", "Tx3.Lang.egood", "Tx3.Lang.C01_datum_exact", "Tx3.Lang.C01_redeemer_exact",
+            "Tx3.Lang.C01_field_order_immaterial", "Tx3.Lang.C01_datum_fragment"]
 RULE = (
     "cases = generated programs over the core fragment: env (Int, Bytes), 2-3 parties, a policy, an asset, a record "
     "and a variant type; one transaction with 1-3 positive Int parameters, optionally an unconstrained Int, a Bytes "
